@@ -4,8 +4,8 @@
 (* action formulas, and the scenario emitter used with `tlc -simulate`.     *)
 EXTENDS NNS, Json
 
-VARIABLES g, steps, hist
-mcvars == <<now, roots, ns, supply, bal, idx, rec, soa, ev, g, steps, hist>>
+VARIABLES g, api, steps, hist
+mcvars == <<now, roots, ns, supply, bal, idx, rec, soa, ev, g, api, steps, hist>>
 
 \* ---- quick: one TLD, a chain of three names (so that a name two levels below its token exists) ----
 Q_Par        == ("t" :> Nil) @@ ("a.t" :> "t") @@ ("b.a.t" :> "a.t") @@ ("c.b.a.t" :> "b.a.t")
@@ -39,8 +39,9 @@ S_RTypes     == {"A", "CNAME", "TXT", "AAAA", "SOA", "BAD"}
 
 CONSTANTS MaxSteps, MaxNow, SimLen
 
-MCInit == Init /\ g = GInit /\ steps = 0 /\ hist = <<>>
-MCNext == Next /\ g' = GNext(g, ev', now') /\ steps' = steps + 1 /\ hist' = <<>>
+\* (g and api are variables rather than LET definitions: TLC re-evaluates a LET body at every use)
+MCInit == Init /\ g = GInit /\ api = ApiModel(Dev) /\ steps = 0 /\ hist = <<>>
+MCNext == Next /\ g' = GNext(g, ev', now') /\ api' = ApiModel(Dev)' /\ steps' = steps + 1 /\ hist' = <<>>
 MCSpec == MCInit /\ [][MCNext]_mcvars
 
 Bounded == steps <= MaxSteps /\ now <= MaxNow
@@ -77,21 +78,19 @@ SimStep ==
   \/ \E n \in SimNames, ty \in One(RTypes), i \in One(Ids) : \E d \in One(DataFor(ty)), S \in SimSigners(n, Nil), v \in SimVia(n, Nil) : SetRecord(S, v, n, ty, i, d)
   \/ \E n \in SimNames, ty \in One(RTypes) : \E S \in SimSigners(n, Nil), v \in SimVia(n, Nil) : DeleteRecords(S, v, n, ty)
 
-SimNext == SimStep /\ g' = GNext(g, ev', now') /\ steps' = steps + 1 /\ hist' = Append(hist, [ev' EXCEPT !.ntf = <<>>])
+SimNext == SimStep /\ g' = GNext(g, ev', now') /\ api' = api /\ steps' = steps + 1 /\ hist' = Append(hist, [ev' EXCEPT !.ntf = <<>>])
 SimSpec == MCInit /\ [][SimNext]_mcvars
 
 EmitScenario == IF Len(hist) = SimLen THEN PrintT("SCEN " \o ToJson([steps |-> hist])) ELSE TRUE
 
-\* ---- the properties as action formulas: H = reference state after the step, api = read API after it ----
-P_C10 == [][LET H == GNext(g, ev', now')  api == ApiModel(Dev)'  t == now' IN
-            /\ C10_Supply(H, api) /\ C10_Index(H, api) /\ C10_Avail(H, t, api)
-            /\ C10_RegisterFree(g, ev', t) /\ C10_Renew(H, ev', t)
-            /\ C10_ChainAlive(H, t, api) /\ C10_Announced(g, H, ev')]_mcvars
+\* ---- the properties as action formulas: g' = reference state after the step, api' = read API after it ----
+P_C10 == [][/\ C10_Supply(g', api') /\ C10_Index(g', api') /\ C10_Avail(g', now', api')
+            /\ C10_RegisterFree(g, ev', now') /\ C10_Renew(g', ev', now')
+            /\ C10_ChainAlive(g', now', api') /\ C10_Announced(g, g', ev')]_mcvars
 P_C11 == [][C11_UnauthorisedInert(g, ev', now')]_mcvars
-P_C12 == [][LET H == GNext(g, ev', now')  api == ApiModel(Dev)'  t == now' IN
-            /\ C12_Lists(g, H) /\ C12_Ops(g, ev', t) /\ C12_Serial(g, ev', t, api)
-            /\ C12_Get(H, t, api) /\ C12_GetAll(H, t, api) /\ C12_Resolve(H, t, api)
-            /\ C12_ResolveDot(api) /\ C12_RegisterConflict(g, ev')]_mcvars
+P_C12 == [][/\ C12_Lists(g, g') /\ C12_Ops(g, ev', now') /\ C12_Serial(g, ev', now', api')
+            /\ C12_Get(g', now', api') /\ C12_GetAll(g', now', api') /\ C12_Resolve(g', now', api')
+            /\ C12_ResolveDot(api') /\ C12_RegisterConflict(g, ev')]_mcvars
 
 \* the storage agrees with the reference machine (binding of the two views inside the Spec)
 Inv_Ref == /\ \A n \in Names : g.reg[n] = ns[n]
